@@ -96,6 +96,12 @@ WHERE_OPTS = [
     ('like', "t1.a LIKE '1%'"),
     ('eq_null_const', 't1.a = NULL'),
     ('neg', 't1.a > -1'),
+    # sub-queries that read the outer query's table again, un-aliased (the inner name hides the outer one: no correlation)
+    ('exists_same_table', 'EXISTS (SELECT 1 FROM t2, t1 WHERE t2.id = t1.id AND t1.a = 1)'),
+    ('in_subquery_same_table', 't1.id IN (SELECT t1.id FROM t1 WHERE t1.a = 1)'),
+    ('scalar_same_table', 't1.a = (SELECT max(t1.a) FROM t1)'),
+    ('not_exists_same_table', 'NOT EXISTS (SELECT 1 FROM t1 WHERE t1.a = 2)'),
+    ('in_subquery_same_table_join', 't1.id IN (SELECT t2.id FROM t2 JOIN t1 ON t1.id = t2.id WHERE t1.x > 10)'),
 ]
 
 GROUP_OPTS = [('none', ''), ('group', 'GROUP BY t1.a'), ('having', 'GROUP BY t1.a HAVING count(*) > 1'), ('group2', 'GROUP BY t1.a, t1.x'),
@@ -103,7 +109,9 @@ GROUP_OPTS = [('none', ''), ('group', 'GROUP BY t1.a'), ('having', 'GROUP BY t1.
 ORDER_OPTS = [('none', []), ('c0', [(0, False, None)]), ('c0_desc', [(0, True, None)]), ('c1_c0', [(1, False, None), (0, False, None)]),
               ('c1desc_c0', [(1, True, None), (0, False, None)]), ('c1_nf', [(1, False, 'first'), (0, False, None)]),
               ('c1_nl', [(1, False, 'last')]), ('c1desc_nf', [(1, True, 'first')]), ('c1desc_nl_c0desc', [(1, True, 'last'), (0, True, None)]),
-              ('c1_asc', [(1, 'asc', None)])]
+              ('c1_asc', [(1, 'asc', None)]),
+              # order keys given as output positions
+              ('pos_c1desc_c0', [(1, True, None, 'pos'), (0, False, None, 'pos')]), ('pos_c1', [(1, False, None, 'pos')]), ('pos_c0desc', [(0, True, None, 'pos')])]
 LIMIT_OPTS = [('none', None, None), ('l1', 1, None), ('l2', 2, None), ('l2o1', 2, 1), ('mysql_1_2', 2, 1), ('l0', 0, None), ('l5o2', 5, 2)]
 WRAP_OPTS = ['none', 'cte', 'from_subquery', 'union', 'union_all', 'intersect', 'except', 'table_alias', 'union_three', 'cte_join']
 DISTINCT_OPTS = [False, True]
@@ -311,7 +319,9 @@ def build(assign):
     names_out = out_names(sel, tl)
     spec = []
     otxt = []
-    for pos, desc, nulls in ospec:
+    for entry in ospec:
+        pos, desc, nulls = entry[:3]
+        positional = len(entry) > 3
         if pos >= len(cols):
             return None
         cname = cols[pos]
@@ -325,6 +335,8 @@ def build(assign):
             oexpr = ('q1.' if wrap == 'table_alias' else 't1.') + cname
         elif wrap in ('none', 'table_alias') and cname == 'a' and gsql:
             oexpr = ('q1.' if wrap == 'table_alias' else 't1.') + cname
+        if positional:
+            oexpr = str(idx + 1)
         otxt.append(oexpr + (' DESC' if d else ' ASC' if desc == 'asc' else '') + (' NULLS FIRST' if nulls == 'first' else ' NULLS LAST' if nulls == 'last' else ''))
     sql = body
     if otxt:
